@@ -53,13 +53,22 @@ def _on_alarm(sig, frm):
     raise _Alarm()
 
 
+HANGS = [0]
+
+
 def guarded(f, *a, seconds=20):
-    """run f(*a); ('ok', value) | ('err', kind) | ('hang',)"""
+    """run f(*a); ('ok', value) | ('err', kind) | ('hang',).  After the first non-terminating call the time limit drops to
+    2 s and after three of them no further call is attempted (the violation is established; the run must stay bounded)"""
+    if HANGS[0] >= 3:
+        return ("hang",)
+    if HANGS[0]:
+        seconds = 2
     old = signal.signal(signal.SIGALRM, _on_alarm)
     signal.alarm(seconds)
     try:
         return ("ok", f(*a))
     except _Alarm:
+        HANGS[0] += 1
         return ("hang",)
     except Exception as e:  # noqa
         return ("err", err_kind(e))
